@@ -1,4 +1,5 @@
 import Prism.Proofs.C20
+import Prism.Proofs.C20Box
 
 #print axioms Prism.Alg.C20_mul_inverse
 #print axioms Prism.Alg.C20_inverse_mul
@@ -9,3 +10,6 @@ import Prism.Proofs.C20
 #print axioms Prism.Alg.C20_primary_r
 #print axioms Prism.Alg.C20_primary_g
 #print axioms Prism.Alg.C20_primary_b
+#print axioms Prism.C20_toXYZ_float_box
+#print axioms Prism.C20_float_matches_exact
+#print axioms Prism.C20_published_spaces
